@@ -5,16 +5,16 @@ CONFIG = dict(
               "machine invariant for self presence; MakeMembers against a declarative specification; interleaving model of field "
               "stores vs. a getter's single load; invariant 'member map + pending events = store' of the provider in front of a model of the etcd store, "
               "and the frozen key of a run that lost an event) over a hand-written model + differential correspondence with the real provider "
-              "fold and the real directory (incl. the real StartMember / StartClient, watch loop and restart on an in-memory revisioned etcd store; the cluster-disabled start) + getter facts, the getters each helper query of package app calls, and the start-up order (initial publication before the watch goroutine) regenerated from the source by a go/ast extractor and re-checked by the kernel",
+              "fold and the real directory (incl. the real StartMember / StartClient, watch loop and restart on an in-memory revisioned etcd store; the cluster-disabled start) + getter facts, the getters each helper query of package app calls, and the start-up order (initial publication before the watch goroutine) regenerated from the source by a go/ast extractor and re-checked by the kernel; the single-load premise is also tied behaviourally: real reader goroutines race the real UpdateClusterTopology on views of very different size",
     level_text="Machine-checked proof in Lean 4 that the model of handleWatchResponse/updateNodesWithChanges folds every history, under every "
                "batching into watch responses, to the member set the events imply one at a time (self never touched, duplicates idempotent, "
                "unknown deletes no-ops, dead registrations removed; Member.Port = int32(port) modelled as the signed low 32 bits); that after the initial listing every publication contains the node itself "
                "with its current state; that MakeMembers' per-type lists, working lists and name resolution equal a declarative function of the "
                "member set (independent of Go map order); and that a getter's single field load interleaved arbitrarily with the updater's field "
-               "stores returns the answer of one completely built view (and so does every helper query of package app: each calls one getter once). "
+               "stores returns the answer of one completely built view (and so does every helper query of package app: each calls one getter once; a getter that loaded its ONE field twice would still be whole only if no store falls between the loads and otherwise returns an answer sized by one view and filled from the other, or panics — theorems double_load_*; the real getters are raced against size-changing publications on every run). "
                "With the provider placed in front of a model of the etcd store (writes by any node, lease expiries, the initial Get, the watch created 'from now', "
                "deliveries in any batching, failed and re-opened watches, own state changes, the keep-alive loop's revoke and re-registration after a state change): as long as no event is lost the member map with the pending events "
-               "applied IS the store (and a member holds and publishes its own entry — which it does through lost events as well; an own state change reaches the node's own directory and the store through the keep-alive loop's revoke and re-registration); an event lost between the listing and the creation of the watch, or with a "
+               "applied IS the store (and a member holds and publishes its own entry — which it does through lost events as well; an own state change reaches the node's own directory and the store through the keep-alive loop's revoke and re-registration; a StartMember whose registerService fails returns the error with its watcher alive — the run without registration is among the runs the theorems quantify over, the directory keeps following the store, witness failed_registration_leaves_live_watcher, tied by the `sys mode=regfail` scripts); an event lost between the listing and the creation of the watch, or with a "
                "failed watch, is never repaired until the key is written again (the code passes no start revision and never re-lists: reported as a suspected defect, not flagged). "
                "The model is tied to the Go code on every run by executing both on "
                "generated histories (every history of <=2 events quick / <=4 events thorough over a 10-event alphabet under every batching, "
@@ -39,14 +39,15 @@ CONFIG = dict(
                        "directory_is_function_of_history_wf", "listing_eq_implied_registrations",
                        "implied_depends_only_on_own_key_events", "key_last_event_decides",
                        "getService_resolves_to_a_lister", "self_cluster_lists_own_services",
-                       "helper_queries_single_getter", "helper_query_sees_whole_view", "working_items_have_no_pid"],
+                       "helper_queries_single_getter", "helper_query_sees_whole_view", "working_items_have_no_pid",
+                       "double_load_without_store_between_is_whole", "double_load_equal_field_is_whole", "double_load_of_one_field_can_mix", "failed_registration_leaves_live_watcher"],
     harness_pkg="./c08",
     go_flags=["-overlay=/verif/harness/c08/overlay/overlay.json"],
     mode="diff",
     reset_prefix="reset",
     runs={
         "quick": [dict(name="main", env={"VERIF_N": "700", "VERIF_EXH": "3"}, timeout=240)],
-        "thorough": [dict(name="main", env={"VERIF_N": "8000", "VERIF_EXH": "3", "VERIF_SYSEXH": "4", "VERIF_STRESS": "200000"}, timeout=900),
+        "thorough": [dict(name="main", env={"VERIF_N": "8000", "VERIF_EXH": "3", "VERIF_SYSEXH": "4", "VERIF_STRESS": "200000", "VERIF_STRESSBIG": "100000", "VERIF_STRESSSWAPS": "40"}, timeout=900),
                      dict(name="seed2", env={"VERIF_N": "8000", "VERIF_EXH": "1"}, seed_offset=1000, timeout=900),
                      dict(name="exh4", test="TestExhaustive", env={"VERIF_EXH": "4"}, timeout=1500)],
     },
@@ -60,10 +61,10 @@ CONFIG = dict(
          "(GetMembers, GetServiceList, GetWorkServiceList, GetService, GetWorkServiceNames for all types and a name universe); `mk` ops build "
          "the directory from explicit member lists incl. duplicate ids, duplicate and malformed service names. `start` ops run the real StartMember on in-memory KV/Lease/Watcher stand-ins inside a synctest bubble "
          "(listing, then a response right after the watch opened, the first directory store held until a second publication or 500 ms of "
-         "virtual time) and observe what the directory holds in the end; `sys` ops run the real StartMember or StartClient against an in-memory revisioned etcd store "
+         "virtual time) and observe what the directory holds in the end; `sys` ops run the real StartMember or StartClient (mode=regfail: StartMember against a store that refuses the provider's Put, so that registerService fails after startWatching(): the error must be returned and the watcher lives on, unregistered, without keep-alive loop) against an in-memory revisioned etcd store "
          "(initial content incl. stale own registration and dead entries; writes that fall between the Get and the creation of the watch; then PUTs/DELETEs by any node incl. the node's own key, "
          "deliveries of everything pending as one response, watch failures answered by the real restart loop, own state changes, keep-alive answers that make the real keep-alive loop revoke the lease and register again) and observe the number of Watch calls, of publications and the last "
-         "published list; every `sys` script of <= 3 (quick) / 4 (thorough) steps over a 9-step alphabet is run against two stores (exhaustive); `selfcluster` ops run InitSelf + BuildSelfClusterTopology + UpdateClusterTopology (cluster disabled) and dump the directory; a `stress` op is a reader/updater smoke run. A case is non-trivial when the "
+         "published list; every `sys` script of <= 3 (quick) / 4 (thorough) steps over a 9-step alphabet is run against two stores (exhaustive); `selfcluster` ops run InitSelf + BuildSelfClusterTopology + UpdateClusterTopology (cluster disabled) and dump the directory; a `stress n=` op is a reader/updater smoke run on two tiny views; a `stress big= swaps=` op is the same run with a view of 20000 (thorough: 100000) working services alternating with a one-service view through the real UpdateClusterTopology, the small view published while a reader is known to be inside a query (progress counters, a different delay on every swap) so that a getter that reads the directory more than once per query has a window of a whole walk: every answer of GetServiceList / GetWorkServiceList / GetWorkServiceNames / GetService / GetMembers, reduced to an order-independent fingerprint, must be the answer of one of the two views, a panic inside a getter is reported. A case is non-trivial when the "
          "observation carries a publication or a directory dump; distinct = distinct (op, observation) pairs",
     trusted_base=[
         "Lean 4.33.0 kernel; axioms of every property theorem audited on each run (allowed: propext, Classical.choice, Quot.sound)",
@@ -72,8 +73,9 @@ CONFIG = dict(
         "white-box shim harness/c08/overlay/export_verif.go (one-line accessors: provider without etcd client, init, updateNodesWithSelf+publish, _keepWatching on an injected channel)",
         "harness canonicalisation: published member lists and directory answers sorted; a service name listed more than once resolves to an arbitrary item in the code (Go map order) and is rendered dup<k>;in|out; a directory built from a published list with duplicate member ids (reachable only with key/id mismatches) is not queried",
         "in-memory stand-ins for clientv3 KV/Lease/Watcher (harness/c08) used by the `start` op; testing/synctest (go1.26) virtualises the 500 ms hold",
-        "in-memory revisioned store + watch sessions (harness/c08 memStore) used by the `sys` op: etcd's documented semantics only; the provider's own Put calls wait until the first watch exists (one of the possible schedules of StartMember: watch goroutine before registerService); KeepAlive answers only on a `K` step; Revoke deletes the keys the provider wrote",
+        "in-memory revisioned store + watch sessions (harness/c08 memStore) used by the `sys` op: etcd's documented semantics only; the provider's own Put calls wait until the first watch exists (one of the possible schedules of StartMember: watch goroutine before registerService); KeepAlive answers only on a `K` step; Revoke deletes the keys the provider wrote; mode=regfail: every Put of the provider is refused (after the first watch exists)",
         "go/ast extractor also lists, for every function of package app outside Cluster/ClusterServices, the directory getters it calls on GetCluster() (transitively, loops marked): theorem helper_queries_single_getter is re-checked against it on every run",
+        "the `stress` ops are real-time races (4 reader goroutines, no virtual clock): a miss is possible in principle (quick: 16 size-changing swaps, each with a reader inside a directory walk of 20000 items; a getter with two loads was hit on the first swap in 40 of 40 trial runs, the unchanged tree stayed silent in 40 of 40); the syntactic fact `one load per getter` (getter_facts_match_source) stays the primary tie",
         "encoding/json: the harness writes the JSON a peer would write (json.Marshal of the same fields) and six kinds of invalid values",
     ],
     assumptions=[
